@@ -298,8 +298,8 @@ def run(ctx):
     nbeh = 150 if quick else 1500
     gcfg = os.path.join(ctx.work, 'Gen_SymTab_run.cfg')
     with open(gcfg, 'w') as fh:
-        fh.write(f'SPECIFICATION GSpec\nCONSTANT GenDepth = {depth}\nCONSTRAINT Emit\nCHECK_DEADLOCK FALSE\n')
-    r = ctx.tlc('Gen_SymTab', gcfg, simulate=f'num={nbeh}', depth=depth + 1, seed=ctx.seed + 17, timeout=900)
+        fh.write(f'SPECIFICATION GSpec\nCONSTANT GenDepth = {depth}\nCHECK_DEADLOCK FALSE\n')
+    r = ctx.tlc('Gen_SymTab', gcfg, simulate=f'num={nbeh}', depth=depth + 3, seed=ctx.seed + 17, timeout=900)
     behs = [json.loads(v[1]) for v in r.prints('BEHAVIOUR')]
     if len(behs) < nbeh * 0.9:
         raise MachineryError(f'Gen_SymTab produced {len(behs)} behaviours, expected {nbeh}\n{r.tail()}')
@@ -324,6 +324,10 @@ def run(ctx):
             cases.append({'kind': kind, 'events': trace})
             meta.append((kind, trace))
     ctx.cover['spec_behaviours_replayed'] = len(behs) * 3
+    gen_ops = {h['e']['op'] for beh in behs for h in beh}
+    ctx.cover['distinct_ops_in_generated_behaviours'] = len(gen_ops)
+    if len(gen_ops) < 12 or len({json.dumps(b, sort_keys=True) for b in behs}) < 0.9 * len(behs):
+        raise MachineryError(f'vacuity: generated behaviours are not diverse (ops {sorted(gen_ops)})')
     ctx.cover['spec_to_code_steps_compared'] = s2c_steps
     # 3. code -> spec: seeded random histories recorded from the real objects
     nrand = 300 if quick else 4000
